@@ -211,11 +211,28 @@ func genRobust(t *rapid.T, proto string, envs map[string]*wire.GenEnv, amplify b
 			add(exp, b, note)
 		case "sflow":
 			d := wire.GenSFDatagram(t)
-			b := d.Bytes()
 			note := "valid"
-			if mutate {
+			if mutate && rapid.IntRange(0, 2).Draw(t, "weirdl4") == 0 {
+				// sampled packets of protocols the collector has no transport decoder for, IPv6 extension-header chains
+				for si := range d.Samples {
+					if f := d.Samples[si].Flow; f != nil {
+						for ri := range f.Recs {
+							if f.Recs[ri].Raw != nil {
+								wire.WeirdL4(t, &f.Recs[ri].Raw.Pkt)
+								note = "weird-l4"
+							}
+						}
+					}
+				}
+			}
+			b := d.Bytes()
+			if mutate && (note == "valid" || rapid.Bool().Draw(t, "mutatetoo")) {
 				nm := rapid.IntRange(1, 3).Draw(t, "nmut")
-				note = ""
+				if note == "valid" {
+					note = ""
+				} else {
+					note += " "
+				}
 				offs := d.StructuralOffsets()
 				for k := 0; k < nm; k++ {
 					var nn string
@@ -441,7 +458,7 @@ func runRobust(prop string, c *rbCase, bounds bool) (v verdict, sig string, err 
 		if it.Exp < 0 || it.Exp >= len(c.Exporters) {
 			return v, "", fmt.Errorf("bad case: exporter index")
 		}
-		if it.Note != "valid" && it.Note != "valid-announce" && it.Note != "valid-or-boundary" {
+		if it.Note != "valid" && it.Note != "valid-announce" && it.Note != "valid-or-boundary" && it.Note != "restart" {
 			mutated = true
 		}
 		if i%4 == 0 {
